@@ -315,8 +315,49 @@ def _wgm_returns(A):
 
 
 contract(f"{FN}::_weighted_geometric_mean", "C06", cases=["-"], assumed=True, inputs=lambda B, case: {}, returns=_wgm_returns,
-         notes=["ASSUMED: _weighted_geometric_mean(x, sample_weight=w, axis=0) = exp(sum(w * log x) / sum(w)) per column (transcendental "
-                "functions; compared with scipy by the bounded tier); recorded with its arguments"])
+         notes=["ABSTRACTION at call sites: _weighted_geometric_mean is recorded as an uninterpreted function of its arguments (nothing about "
+                "its value is assumed); its formula exp(sum(w * log x) / sum(w)) per column is verified separately under the tagged "
+                "contract `#formula`; numbers are compared with scipy by the bounded tier"])
+
+
+def _wgm_inputs(B, case):
+    n, c = B.int("n", 1), B.int("c", 1)
+    x = B.arr("x", shape=(n, c), dtype="real", kind="ndarray")
+    w = B.arr("w", n=n, dtype="real", kind="ndarray")
+    return {"x": x, "sample_weight": w, "axis": 0}
+
+
+def _wgm_post(A, r):
+    """column j of the result is exp(S1[j] / S2[0]) where S1 = sum over rows of w[i] * log(x[i, j]) and S2 = sum of the weights
+    (both sums are the recorded numpy aggregates: their ARGUMENTS are pinned down cell by cell)"""
+    from pyvc.libnp import _real_fun
+    from pyvc import spec as _S
+    from pyvc.values import SArr as _SArr
+    ctx = _S.CUR.ctx
+    sums = [e for e in ctx.trace if e.method == "agg:sum"]
+    if len(sums) != 2 or not isinstance(r, _SArr) or r.ndim != 1:
+        return False
+    s1, s2 = sums
+    a1, a2 = s1.args[0], s2.args[0]
+    if not (isinstance(a1, _SArr) and a1.ndim == 2 and isinstance(a2, _SArr) and a2.ndim == 2):
+        return False
+    if s1.kwargs.get("axis") != 0 or s2.kwargs.get("axis") != 0:
+        return False
+    log, exp = _real_fun(ctx, "log", 1), _real_fun(ctx, "exp", 1)
+    i, j = ctx.fresh_int("row"), ctx.fresh_int("col")
+    ctx.assume(And(i >= 0, i < Z(A.x.shape[0]), j >= 0, j < Z(A.x.shape[1])))
+    w_i = ops.as_real(A.sample_weight.fn(i))
+    return And(Eq(a1.shape[0], A.x.shape[0]), Eq(a1.shape[1], A.x.shape[1]), Eq(a2.shape[0], A.x.shape[0]), Eq(a2.shape[1], 1),
+               Eq(a1.fn(i, j), w_i * log(ops.as_real(A.x.fn(i, j)))), Eq(a2.fn(i, 0), w_i),
+               Eq(r.len, A.x.shape[1]),
+               Eq(r.fn(j), exp(ops.as_real(s1.result.fn(j)) / ops.as_real(s2.result.fn(0)))))
+
+
+contract(f"{FN}::_weighted_geometric_mean#formula", "C06", cases=["-"], inputs=_wgm_inputs,
+         ensures=[("exp-of-weighted-sum-of-logs-over-sum-of-weights-per-column", _wgm_post)],
+         zero_divisor_outside="weights whose sum is zero (no weighted mean exists; numpy returns inf / nan)",
+         notes=["log / exp are uninterpreted real functions, the two np.sum calls are recorded aggregates whose arguments are pinned "
+                "down cell by cell; a zero sum of weights is outside the clause (numpy returns inf/nan there)"])
 
 
 def _floor_eps(v):
